@@ -1000,8 +1000,14 @@ func (s *UtxoSweeper) markInputsPublishFailed(set InputSet,
 
 		// Update the input using the fee rate specified from the
 		// BumpResult, which should be the starting fee rate to use for
-		// the next sweeping attempt.
-		pi.params.StartingFeeRate = fn.Some(feeRate)
+		// the next sweeping attempt. A zero fee rate means the bumper
+		// has no suggestion (the tx or the fee function could not be
+		// created), in which case we keep the current starting fee
+		// rate so the next attempt won't start below a fee rate we've
+		// already used.
+		if feeRate != 0 {
+			pi.params.StartingFeeRate = fn.Some(feeRate)
+		}
 	}
 }
 
